@@ -176,7 +176,7 @@ fn build(b: &Base, sites: &[Site]) -> Vec<u8> {
             let ex: Vec<we::ConstExpr> = seg.iter().map(|n| we::ConstExpr::ref_func(sites[*n].id as u32)).collect();
             es.active(Some(ntab_imp), &we::ConstExpr::i32_const(32), we::Elements::Expressions(we::RefType::FUNCREF, ex.into()));
         }
-        // an empty active segment whose offset is `global.get g` (g: an imported immutable i32 global)
+        // an empty active segment whose offset is `global.get g` (g: an immutable i32 global, imported or plain local)
         if let Some(n) = b.elem_off { es.active(Some(ntab_imp), &we::ConstExpr::global_get(sites[n].id as u32), we::Elements::Functions(Vec::<u32>::new().into())); }
         m.section(&es);
     }
@@ -413,7 +413,10 @@ fn gen_case(r: &mut Rng, prop: &str, seed: u64, idx: u64) -> Case {
         elem_sites.extend(seg.iter().cloned()); base.elem_expr.push(seg);
     }
     // constant expressions the IR keeps as parsed: the offset of an active element segment, a table initialiser
-    if nimp[1] > 0 && r.chance(1, 3) { sites.push(Site { k: Rk::ElemOff, sp: Sp::G, id: r.below(nimp[1]), owner: Owner::None, flavour: 0, flavour2: 0 }); base.elem_off = Some(sites.len() - 1); }
+    // (the offset may name an imported global or a plain local one - immutable i32, `i32.const` initialiser -: with the GC
+    // rules the validator accepts `global.get` of any immutable global there; local ones move whenever an import is added)
+    let noff_globals = nimp[1] + base.globals.iter().filter(|g| g.1.is_none()).count() as u64;
+    if noff_globals > 0 && r.chance(1, 3) { sites.push(Site { k: Rk::ElemOff, sp: Sp::G, id: r.below(noff_globals), owner: Owner::None, flavour: 0, flavour2: 0 }); base.elem_off = Some(sites.len() - 1); }
     if r.chance(1, 3) { sites.push(Site { k: Rk::TableInit, sp: Sp::F, id: r.below(len[0]), owner: Owner::None, flavour: 0, flavour2: 0 }); base.table_init = Some(sites.len() - 1); }
     if len[2] > 0 {
         for _ in 0..r.below(3) {
